@@ -1,8 +1,1792 @@
-//! stub — to be implemented
-use crate::common::{Ctx, Report};
+//! C18 — TCP relays are byte-exact and PROXY protocol headers are exact and unique.
+//!
+//! Worker lab. One *cell* = one sozu worker, one TCP (or HTTP, for WebSocket) listener on a
+//! private loopback address, one cluster, one scripted backend; many sequential *sessions* per
+//! cell (a session = one relayed connection, a scripted client and the scripted backend side).
+//!
+//! Oracles, all at the harness's own sockets:
+//!  1. stream equality — every byte received on either side is the next byte of the peer's
+//!     self-describing keystream (mismatches are localised: dropped / repeated / foreign bytes);
+//!  2. end-of-stream ordering — when a side has sent N bytes and then ended its stream, the other
+//!     side must have received N bytes when it observes the end-of-stream;
+//!  3. PROXY protocol v2 — independent builder/parser (`pp.rs`): SEND: exactly one well-formed
+//!     header with the client socket's own addresses, then the payload; EXPECT: no header byte
+//!     and every payload byte at the backend, for every header shape and split position;
+//!     RELAY: one header carrying the incoming addresses; malformed/oversized: nothing forwarded;
+//!  4. the same stream/EOS oracles on an upgraded WebSocket pipe (`ws`), also behind an HTTP
+//!     listener with `expect_proxy` (`expect_http`: PROXY header, upgrade request, raw bytes) —
+//!     the same `ExpectProxyProtocol` reassembly code as the TCP listener;
+//!  5. no sozu panic, no stuck event loop, session released (nb_connections back to the baseline).
+//!
+//! Modes that take the worker down (at this commit: TCP `expect` panics on the first connection,
+//! `relay` spins forever) are probed by one cell and then skipped (`CellShared`); a relay canary
+//! cell runs beside the pool so that only one worker thread is ever left spinning.
+//!
+//! Harness soundness notes: sessions of a cell are sequential; before each session a marker
+//! connection is pushed through the backend's accept queue and after each session the monitor
+//! waits for sozu's own `accept` event, so a backend connection can only belong to the current
+//! session; split points wait on sozu's read counter instead of sleeping; receivers re-arm
+//! TCP_QUICKACK and no socket buffer below 16 KB is used on a receive side (silly-window stalls).
+//!
+//! Debug aids: `VH_C18_TRACE=1` prints one line per session; `--opt only=<modes>`,
+//! `--opt kind=random|sweep|malformed`, `--opt max_cells=N`, `--opt scale=N`, `--opt max_size=N`.
 
-pub fn run(_ctx: &Ctx) -> Report {
-    let mut rep = Report::new("exploration", "not implemented");
-    rep.broken("check not implemented yet");
+mod engine;
+mod pp;
+
+use std::{
+    collections::BTreeSet,
+    net::{IpAddr, Ipv4Addr, Ipv6Addr, SocketAddr},
+    sync::{
+        Arc, Mutex,
+        atomic::{AtomicBool, AtomicU64, Ordering},
+        mpsc::{Receiver as MpscReceiver, Sender, channel},
+    },
+    time::{Duration, Instant},
+};
+
+use engine::{End, Preamble, Role, Shared, Side, SideReport, Strip, StripMode};
+use serde_json::{Value, json};
+use sozu_command_lib::proto::command::{Cluster, ProxyProtocolConfig, request::RequestType};
+
+use crate::{
+    common::{Ctx, Report, Rng, par_cases_named},
+    lab::{self, Worker, WorkerOpts},
+    peers::{self, BackendServer, IoProgram},
+};
+
+const STREAM: u64 = 0xC18;
+const WS_HOST: &str = "ws.c18.test";
+
+#[derive(Clone, Copy, Debug, PartialEq, Eq, Hash, PartialOrd, Ord)]
+enum Mode {
+    Plain,
+    Send,
+    Expect,
+    Relay,
+    Ws,
+    /// HTTP listener with `expect_proxy`: PROXY header, then a WebSocket upgrade, then raw bytes
+    ExpectWs,
+}
+
+impl Mode {
+    fn name(self) -> &'static str {
+        match self {
+            Mode::Plain => "plain",
+            Mode::Send => "send",
+            Mode::Expect => "expect",
+            Mode::Relay => "relay",
+            Mode::Ws => "ws",
+            Mode::ExpectWs => "expect_http",
+        }
+    }
+    fn is_ws(self) -> bool {
+        matches!(self, Mode::Ws | Mode::ExpectWs)
+    }
+    /// prefix of stream-level signatures
+    fn stream_prefix(self) -> &'static str {
+        if self.is_ws() { "ws" } else { "tcp" }
+    }
+    fn incoming_header(self) -> bool {
+        matches!(self, Mode::Expect | Mode::Relay | Mode::ExpectWs)
+    }
+}
+
+#[derive(Clone, Copy, Debug, PartialEq, Eq)]
+enum Who {
+    Client,
+    Backend,
+}
+
+#[derive(Clone, Debug, PartialEq, Eq)]
+enum Script {
+    /// both send; `first` closes once it has sent and received everything, the other closes
+    /// after seeing that end-of-stream
+    Exchange { first: Who },
+    /// `first` sends everything, shuts its write side down and reads until end-of-stream; the
+    /// other reads until end-of-stream (sending concurrently, or only afterwards when `late`)
+    HalfClose { first: Who, late: bool },
+    /// `who` resets the connection after `after` bytes
+    Rst { who: Who, after: u64 },
+}
+
+impl Script {
+    fn name(&self) -> String {
+        match self {
+            Script::Exchange { first } => format!("exchange/{first:?}_closes_first"),
+            Script::HalfClose { first, late } => format!("halfclose/{first:?}/{}", if *late { "reverse_after" } else { "reverse_concurrent" }),
+            Script::Rst { who, .. } => format!("rst/{who:?}"),
+        }
+    }
+}
+
+#[derive(Clone, Debug, PartialEq, Eq)]
+enum HdrVerdict {
+    /// must be accepted: no header byte forwarded (expect) / one equal header (relay), full payload
+    Valid,
+    /// the specification lets a receiver accept or reject it (unparsable TLV padding)
+    Lenient,
+    /// must close the session with nothing forwarded
+    Malformed,
+    Oversized,
+}
+
+#[derive(Clone, Debug)]
+struct HdrSpec {
+    class: String,
+    bytes: Vec<u8>,
+    verdict: HdrVerdict,
+    parsed: Option<pp::Header>,
+    /// the client ends its stream right after these (truncated) bytes
+    truncated: bool,
+}
+
+impl HdrSpec {
+    /// class of the header as used in signatures (the exact class goes into witnesses and evidence)
+    fn coarse(&self) -> String {
+        match &self.parsed {
+            Some(h) => match (h.family(), h.command()) {
+                (0, 0) => "local_unspec".to_owned(),
+                (0, _) => "proxy_unspec".to_owned(),
+                (3, _) => "unix_family".to_owned(),
+                _ if h.tail.is_empty() => "inet".to_owned(),
+                _ => "inet_with_tlv".to_owned(),
+            },
+            None => self.class.clone(),
+        }
+    }
+}
+
+#[derive(Clone, Debug)]
+struct SessionSpec {
+    k: u64,
+    c2b: u64,
+    b2c: u64,
+    script: Script,
+    cprog: IoProgram,
+    bprog: IoProgram,
+    src_ip: Option<Ipv4Addr>,
+    hdr: Option<HdrSpec>,
+    split: Option<usize>,
+    joined: usize,
+    /// sweep sessions: the backend answers only once it has seen the first payload byte
+    backend_holds: bool,
+    /// WebSocket: cut inside the upgrade request; first backend bytes sharing the segment of the 101
+    request_cut: Option<usize>,
+    ws_joined: usize,
+}
+
+impl SessionSpec {
+    fn json(&self) -> Value {
+        json!({
+            "session": self.k, "client_to_backend_bytes": self.c2b, "backend_to_client_bytes": self.b2c,
+            "script": self.script.name(), "script_detail": format!("{:?}", self.script),
+            "client_io": self.cprog.describe(), "backend_io": self.bprog.describe(),
+            "client_source_ip": self.src_ip.map(|i| i.to_string()),
+            "header": self.hdr.as_ref().map(|h| json!({"class": h.class, "hex": hex::encode(&h.bytes[..h.bytes.len().min(300)]), "len": h.bytes.len(),
+                "verdict": format!("{:?}", h.verdict), "truncated_then_fin": h.truncated})),
+            "header_split_at": self.split, "payload_bytes_joined_to_header": self.joined,
+            "upgrade_request_cut_at": self.request_cut, "backend_bytes_joined_to_101": self.ws_joined,
+        })
+    }
+}
+
+#[derive(Clone, Debug)]
+enum CellKind {
+    Random,
+    /// header variant `variant`, split positions from..to, with and without joined payload
+    Sweep { variant: usize, from: usize, to: usize },
+    Malformed,
+}
+
+#[derive(Clone, Debug)]
+struct CellSpec {
+    idx: u64,
+    mode: Mode,
+    kind: CellKind,
+    buffer_size: u64,
+    knobs: Vec<(String, i64)>,
+    backend_rcvbuf: usize,
+    ipv6: bool,
+    n_sessions: u64,
+    max_size: u64,
+    front_timeout: u32,
+    /// first cell of a mode suspected to take the worker down; the others wait for its verdict
+    canary: bool,
+}
+
+impl CellSpec {
+    fn json(&self) -> Value {
+        json!({"cell": self.idx, "mode": self.mode.name(), "kind": format!("{:?}", self.kind), "buffer_size": self.buffer_size,
+            "knobs": self.knobs, "backend_rcvbuf": self.backend_rcvbuf, "ipv6": self.ipv6, "front_timeout": self.front_timeout})
+    }
+}
+
+// ------------------------------------------------------------------------------------------
+// header variants
+// ------------------------------------------------------------------------------------------
+
+fn v4(src: &str, dst: &str) -> pp::Addr {
+    pp::Addr::V4(src.parse().unwrap(), dst.parse().unwrap())
+}
+fn v6(src: &str, dst: &str) -> pp::Addr {
+    pp::Addr::V6(src.parse().unwrap(), dst.parse().unwrap())
+}
+
+fn valid(class: &str, h: pp::Header, verdict: HdrVerdict) -> HdrSpec {
+    // proxy-protocol.txt 2.2: a LOCAL header "must" be accepted; with the UNSPEC family (and with any
+    // family the receiver does not implement, which "falls back to the UNSPEC mode") "the receiver is
+    // free to accept the connection anyway and use the real endpoint addresses or to reject it".
+    // sozu implements INET and INET6: PROXY+UNSPEC and UNIX headers may be refused (cleanly).
+    let optional = (h.family() == 0 && h.command() == 1) || h.family() == 3;
+    let verdict = if optional { HdrVerdict::Lenient } else { verdict };
+    HdrSpec { class: class.to_owned(), bytes: h.encode(), verdict, parsed: Some(h), truncated: false }
+}
+
+fn unix_addr() -> pp::Addr {
+    pp::Addr::Unix(b"/run/c18/client.sock".to_vec(), b"/run/c18/listener.sock".to_vec())
+}
+
+/// the valid shapes of the exhaustive split sweep
+fn sweep_variants() -> Vec<HdrSpec> {
+    let a4 = v4("203.0.113.7:40001", "198.51.100.9:443");
+    let a6 = v6("[2001:db8::7]:40002", "[2001:db8:1::9]:8443");
+    vec![
+        valid("proxy_tcp4", pp::Header { ver_cmd: 0x21, fam_proto: 0x11, addr: a4.clone(), tail: vec![] }, HdrVerdict::Valid),
+        valid("proxy_tcp6", pp::Header { ver_cmd: 0x21, fam_proto: 0x21, addr: a6.clone(), tail: vec![] }, HdrVerdict::Valid),
+        valid("local_unspec", pp::Header { ver_cmd: 0x20, fam_proto: 0x00, addr: pp::Addr::None, tail: vec![] }, HdrVerdict::Valid),
+        valid("proxy_unspec_tlv", pp::Header { ver_cmd: 0x21, fam_proto: 0x00, addr: pp::Addr::None, tail: pp::tlv_tail(12) }, HdrVerdict::Valid),
+        valid("proxy_tcp4_tlv", pp::Header { ver_cmd: 0x21, fam_proto: 0x11, addr: a4.clone(), tail: pp::tlv_tail(12) }, HdrVerdict::Valid),
+        valid("proxy_tcp6_tlv", pp::Header { ver_cmd: 0x21, fam_proto: 0x21, addr: a6.clone(), tail: pp::tlv_tail(24) }, HdrVerdict::Valid),
+        valid("local_tcp4", pp::Header { ver_cmd: 0x20, fam_proto: 0x11, addr: a4.clone(), tail: vec![] }, HdrVerdict::Valid),
+        valid("proxy_unix", pp::Header { ver_cmd: 0x21, fam_proto: 0x31, addr: unix_addr(), tail: vec![] }, HdrVerdict::Valid),
+        valid("proxy_tcp4_tlv_max", pp::Header { ver_cmd: 0x21, fam_proto: 0x11, addr: a4.clone(), tail: pp::tlv_tail(204) }, HdrVerdict::Valid),
+        valid("proxy_tcp4_pad1", pp::Header { ver_cmd: 0x21, fam_proto: 0x11, addr: a4, tail: pp::tlv_tail(1) }, HdrVerdict::Lenient),
+    ]
+}
+
+const RELAY_SWEEP: &[usize] = &[0, 1, 2, 4];
+
+/// a random valid header (random addresses, families, commands, TLV tails 0,1,12,24,...,max)
+fn random_valid_header(rng: &mut Rng) -> HdrSpec {
+    let a4 = pp::Addr::V4(
+        std::net::SocketAddrV4::new(Ipv4Addr::from(rng.next_u64() as u32), rng.range(1, 65535) as u16),
+        std::net::SocketAddrV4::new(Ipv4Addr::from(rng.next_u64() as u32), rng.range(1, 65535) as u16),
+    );
+    let mut o = [0u8; 16];
+    o.copy_from_slice(&rng.bytes(16));
+    let mut p = [0u8; 16];
+    p.copy_from_slice(&rng.bytes(16));
+    let a6 = pp::Addr::V6(
+        std::net::SocketAddrV6::new(Ipv6Addr::from(o), rng.range(1, 65535) as u16, 0, 0),
+        std::net::SocketAddrV6::new(Ipv6Addr::from(p), rng.range(1, 65535) as u16, 0, 0),
+    );
+    let tails = [0usize, 0, 0, 1, 2, 3, 12, 24, 36, 100, usize::MAX];
+    let t = *rng.pick(&tails);
+    let tail = |block: usize| -> Vec<u8> { pp::tlv_tail(if t == usize::MAX { 216 - block } else { t.min(216 - block) }) };
+    let (class, h) = match rng.below(12) {
+        0..=2 => ("proxy_tcp4", pp::Header { ver_cmd: 0x21, fam_proto: 0x11, addr: a4, tail: tail(12) }),
+        3..=4 => ("proxy_tcp6", pp::Header { ver_cmd: 0x21, fam_proto: 0x21, addr: a6, tail: tail(36) }),
+        5..=6 => ("local_unspec", pp::Header { ver_cmd: 0x20, fam_proto: 0x00, addr: pp::Addr::None, tail: tail(0) }),
+        7 => ("proxy_unspec", pp::Header { ver_cmd: 0x21, fam_proto: 0x00, addr: pp::Addr::None, tail: tail(0) }),
+        8 => ("local_tcp4", pp::Header { ver_cmd: 0x20, fam_proto: 0x11, addr: a4, tail: tail(12) }),
+        9 => ("proxy_udp4", pp::Header { ver_cmd: 0x21, fam_proto: 0x12, addr: a4, tail: tail(12) }),
+        10 => ("local_tcp6", pp::Header { ver_cmd: 0x20, fam_proto: 0x21, addr: a6, tail: tail(36) }),
+        _ => ("proxy_unix", pp::Header { ver_cmd: 0x21, fam_proto: 0x31, addr: unix_addr(), tail: vec![] }),
+    };
+    let padded = !h.tail.is_empty() && !pp::tlvs_well_formed(&h.tail);
+    let class = if padded {
+        format!("{class}_pad{}", h.tail.len())
+    } else if h.tail.is_empty() {
+        class.to_owned()
+    } else {
+        format!("{class}_tlv")
+    };
+    valid(&class, h, if padded { HdrVerdict::Lenient } else { HdrVerdict::Valid })
+}
+
+/// headers that must close the session with nothing forwarded
+fn malformed_headers() -> Vec<HdrSpec> {
+    let good = pp::Header { ver_cmd: 0x21, fam_proto: 0x11, addr: v4("203.0.113.7:40001", "198.51.100.9:443"), tail: vec![] };
+    let gb = good.encode();
+    let block = good.addr.block();
+    let mut out = Vec::new();
+    let mut bad = |class: &str, bytes: Vec<u8>, verdict: HdrVerdict, truncated: bool| {
+        out.push(HdrSpec { class: class.to_owned(), bytes, verdict, parsed: None, truncated });
+    };
+    for p in 0..12 {
+        let mut b = gb.clone();
+        b[p] ^= if p % 2 == 0 { 0x01 } else { 0x80 };
+        bad("bad_signature", b, HdrVerdict::Malformed, false);
+    }
+    for vc in [0x11u8, 0x31, 0x01, 0xF1] {
+        bad("bad_version", pp::encode_raw(vc, 0x11, 12, &block), HdrVerdict::Malformed, false);
+    }
+    for vc in [0x22u8, 0x2F] {
+        bad("bad_command", pp::encode_raw(vc, 0x11, 12, &block), HdrVerdict::Malformed, false);
+    }
+    for fp in [0x41u8, 0xF1] {
+        bad("bad_family", pp::encode_raw(0x21, fp, 12, &block), HdrVerdict::Malformed, false);
+    }
+    for fp in [0x13u8, 0x1F] {
+        bad("bad_transport", pp::encode_raw(0x21, fp, 12, &block), HdrVerdict::Malformed, false);
+    }
+    // declared length too short for the declared family
+    bad("short_length_tcp4", pp::encode_raw(0x21, 0x11, 8, &block[..8]), HdrVerdict::Malformed, false);
+    bad("short_length_tcp6", pp::encode_raw(0x21, 0x21, 12, &block), HdrVerdict::Malformed, false);
+    // longer than the 16 + 216 bytes sozu accepts (expect.rs: "exceeds maximum size (232 bytes)")
+    for len in [217usize, 300, 1000, 65535] {
+        let mut body = block.clone();
+        body.extend_from_slice(&pp::tlv_tail(len - 12));
+        bad("oversized", pp::encode_raw(0x21, 0x11, len as u16, &body), HdrVerdict::Oversized, false);
+    }
+    let mut body = Vec::new();
+    body.extend_from_slice(&pp::tlv_tail(217));
+    bad("oversized_unspec", pp::encode_raw(0x20, 0x00, 217, &body), HdrVerdict::Oversized, false);
+    for cut in [1usize, 11, 12, 13, 15, 16, 20, 27] {
+        bad("truncated_then_fin", gb[..cut].to_vec(), HdrVerdict::Malformed, true);
+    }
+    out
+}
+
+// ------------------------------------------------------------------------------------------
+// generators
+// ------------------------------------------------------------------------------------------
+
+fn gen_size(rng: &mut Rng, bs: u64, max: u64) -> u64 {
+    let pm = |rng: &mut Rng, c: u64, ds: &[i64]| -> u64 { (c as i64 + *rng.pick(ds)).max(0) as u64 };
+    let s = match rng.below(100) {
+        0..=4 => 0,
+        5..=8 => 1,
+        9..=26 => pm(rng, bs, &[-2, -1, 0, 1, 2]),
+        27..=36 => pm(rng, 16384, &[-9, -1, 0, 1, 9]),
+        37..=46 => pm(rng, 65535, &[-1, 0, 1]),
+        47..=74 => {
+            let n = rng.range(1, 17);
+            pm(rng, 1 << n, &[-1, 0, 1])
+        }
+        75..=91 => {
+            let bits = rng.range(1, 18);
+            rng.below(1 << bits)
+        }
+        92..=96 => {
+            let n = rng.range(18, 21);
+            pm(rng, 1 << n, &[-1, 1])
+        }
+        _ => pm(rng, max, &[-1, 0]),
+    };
+    s.min(max)
+}
+
+fn size_bucket(n: u64) -> &'static str {
+    match n {
+        0 => "0",
+        1 => "1",
+        2..=1023 => "2..1K",
+        1024..=16383 => "1K..16K",
+        16384..=65535 => "16K..64K",
+        65536..=1048575 => "64K..1M",
+        1048576..=8388607 => "1M..8M",
+        _ => ">=8M",
+    }
+}
+
+/// an I/O program whose deliberate pauses stay below ~0.3 s for the given volumes
+fn gen_prog(rng: &mut Rng, send: u64, recv: u64) -> IoProgram {
+    let mut p = IoProgram::fast();
+    let seg = match rng.below(12) {
+        0..=5 => 0,
+        6 => 1,
+        7 => 7,
+        8 => 100,
+        9 => 1460,
+        10 => 4096,
+        _ => *rng.pick(&[16383usize, 16384, 16385]),
+    };
+    if seg > 0 && send / (seg as u64) <= 3000 {
+        p.write_seg = seg;
+        let segs = send / seg as u64 + 1;
+        p.write_pause_us = if segs <= 100 { *rng.pick(&[0u64, 100, 1000, 2500]) } else if segs <= 1500 { *rng.pick(&[0u64, 50, 150]) } else { 0 };
+    }
+    let (chunk, pause) = match rng.below(12) {
+        0..=5 => (0usize, 0u64),
+        6 => (1, 0),
+        7 => (100, *rng.pick(&[0u64, 100])),
+        8 => (4096, 200),
+        9 => (1024, 1000),
+        10 => (16384, 500),
+        _ => (3000, 0),
+    };
+    if chunk > 0 {
+        let reads = recv / chunk as u64 + 1;
+        if reads <= 4000 && reads * pause <= 300_000 {
+            p.read_chunk = chunk;
+            p.read_pause_us = pause;
+        }
+    }
+    // a small receive buffer on loopback (64 KB segments) makes the kernel advertise zero windows
+    // and fall back on the persist timer: keep it for volumes that still finish quickly
+    p.rcvbuf = if recv <= 300_000 { *rng.pick(&[0usize, 0, 0, 16384, 32768]) } else { 0 };
+    p.sndbuf = if send <= 100_000 { *rng.pick(&[0usize, 0, 0, 0, 8192]) } else { 0 };
+    p
+}
+
+fn gen_script(rng: &mut Rng, c2b: u64, b2c: u64) -> Script {
+    let who = |rng: &mut Rng| if rng.bool() { Who::Client } else { Who::Backend };
+    match rng.below(20) {
+        0..=8 => Script::Exchange { first: who(rng) },
+        9..=16 => Script::HalfClose { first: who(rng), late: rng.chance(1, 3) },
+        _ => {
+            let w = who(rng);
+            let len = if w == Who::Client { c2b } else { b2c };
+            Script::Rst { who: w, after: if len == 0 { 0 } else { rng.below(len + 1) } }
+        }
+    }
+}
+
+fn gen_session(cell: &CellSpec, seed: u64, k: u64, sweep: &[HdrSpec], malformed: &[HdrSpec]) -> SessionSpec {
+    let mut rng = Rng::for_case(seed, STREAM + cell.idx, k);
+    let src_ip = if cell.ipv6 || rng.chance(1, 4) {
+        None
+    } else {
+        Some(Ipv4Addr::new(127, rng.range(1, 250) as u8, rng.range(0, 255) as u8, rng.range(1, 254) as u8))
+    };
+    match &cell.kind {
+        CellKind::Sweep { variant, from, .. } => {
+            let pos = from + (k / 2) as usize;
+            let joined = k % 2 == 0;
+            SessionSpec {
+                k,
+                c2b: 300,
+                b2c: 24,
+                script: Script::Exchange { first: if (k / 2) % 2 == 0 { Who::Client } else { Who::Backend } },
+                cprog: IoProgram::fast(),
+                bprog: IoProgram::fast(),
+                src_ip,
+                hdr: Some(sweep[*variant].clone()),
+                split: if pos == 0 { None } else { Some(pos) },
+                joined: if joined { 300 } else { 0 },
+                backend_holds: true,
+                request_cut: None,
+                ws_joined: 0,
+            }
+        }
+        CellKind::Malformed => {
+            let h = malformed[(k / 2) as usize % malformed.len()].clone();
+            let joined = k % 2 == 0;
+            let truncated = h.truncated;
+            SessionSpec {
+                k,
+                c2b: if truncated { 0 } else { 300 },
+                b2c: 0,
+                script: Script::HalfClose { first: Who::Client, late: false },
+                cprog: IoProgram::fast(),
+                bprog: IoProgram::fast(),
+                src_ip,
+                split: if !truncated && h.bytes.len() > 20 && rng.chance(1, 3) { Some(rng.urange(1, 19)) } else { None },
+                hdr: Some(h),
+                joined: if joined && !truncated { 300 } else { 0 },
+                backend_holds: false,
+                request_cut: None,
+                ws_joined: 0,
+            }
+        }
+        CellKind::Random => {
+            let pressure = !cell.mode.is_ws() && rng.chance(1, 8);
+            let (mut c2b, mut b2c) = (gen_size(&mut rng, cell.buffer_size, cell.max_size), gen_size(&mut rng, cell.buffer_size, cell.max_size));
+            // keep the volume of a cell bounded: at most one large direction per session
+            if c2b > (1 << 20) && b2c > (1 << 20) {
+                if rng.bool() { c2b %= 1 << 16 } else { b2c %= 1 << 16 }
+            }
+            let mut cprog = gen_prog(&mut rng, c2b, b2c);
+            let mut bprog = gen_prog(&mut rng, b2c, c2b);
+            if pressure {
+                // one-directional bulk against a slow reader with a small receive buffer: sozu's
+                // writes towards that reader must really hit EAGAIN
+                let vol = *rng.pick(&[100_000u64, 200_000, 300_001]);
+                let slow = IoProgram { read_chunk: 8192, read_pause_us: 300, rcvbuf: 16384, ..IoProgram::fast() };
+                if rng.bool() {
+                    c2b = vol;
+                    b2c = 0;
+                    bprog = slow;
+                    cprog = IoProgram::fast();
+                } else {
+                    b2c = vol;
+                    c2b = 0;
+                    cprog = slow;
+                    bprog = IoProgram::fast();
+                }
+            }
+            // (the receiver of the bulk closes first, once it has everything)
+            let script = if pressure { Script::Exchange { first: if c2b > 0 { Who::Backend } else { Who::Client } } } else { gen_script(&mut rng, c2b, b2c) };
+            let hdr = if cell.mode.incoming_header() { Some(random_valid_header(&mut rng)) } else { None };
+            let (split, joined) = match &hdr {
+                Some(h) => {
+                    let split = if rng.chance(1, 2) { Some(rng.urange(1, h.bytes.len() - 1)) } else { None };
+                    let joined = match rng.below(4) {
+                        0 => 0,
+                        1 => c2b.min(1 << 16) as usize,
+                        2 => rng.below(c2b.min(400) + 1) as usize,
+                        _ => c2b.min(300) as usize,
+                    };
+                    (split, joined)
+                }
+                None => (None, 0),
+            };
+            let (request_cut, ws_joined) = if cell.mode.is_ws() {
+                // backend bytes sharing the segment of the 101: only with scripts in which the backend ends
+                // the session itself, so that a loss shows as an early end-of-stream and not as a 20 s stall
+                let backend_ends = matches!(script, Script::Exchange { first: Who::Backend } | Script::HalfClose { first: Who::Backend, .. });
+                (if rng.chance(1, 3) { Some(rng.urange(1, 60)) } else { None }, if backend_ends && rng.chance(1, 2) { b2c.min(1 + rng.below(2000)) as usize } else { 0 })
+            } else {
+                (None, 0)
+            };
+            SessionSpec { k, c2b, b2c, script, cprog, bprog, src_ip, hdr, split, joined, backend_holds: false, request_cut, ws_joined }
+        }
+    }
+}
+
+// ------------------------------------------------------------------------------------------
+// cell environment
+// ------------------------------------------------------------------------------------------
+
+struct Env<'a> {
+    cell: &'a CellSpec,
+    front: SocketAddr,
+    back: SocketAddr,
+    probe: Arc<sozu_lib::verif::Probe>,
+    accept_rx: &'a MpscReceiver<std::net::TcpStream>,
+    baseline_connections: usize,
+    idle_limit: Duration,
+    /// (keystream id client->backend, client socket address) of the earlier sessions of this cell
+    prior: std::cell::RefCell<Vec<(u64, Option<SocketAddr>)>>,
+}
+
+fn accept_count(p: &sozu_lib::verif::Probe) -> usize {
+    p.events.lock().unwrap_or_else(|e| e.into_inner()).iter().filter(|e| e.kind == "accept").count()
+}
+
+/// The kernel completes the handshake before sozu accepts the connection: a client that is quick
+/// to leave can be over before sozu has even created the session, and `nb_connections` then reads
+/// "released" too early. Wait until sozu has accepted `n` connections and published a snapshot.
+fn wait_accepted(p: &sozu_lib::verif::Probe, n: usize, limit: Duration) -> bool {
+    let start = Instant::now();
+    while accept_count(p) < n {
+        if start.elapsed() > limit {
+            return false;
+        }
+        std::thread::sleep(Duration::from_micros(200));
+    }
+    // the accept may belong to the iteration in progress: let that iteration publish its snapshot
+    let seen = p.snapshot().iteration;
+    let t = Instant::now();
+    while p.snapshot().iteration == seen && t.elapsed() < Duration::from_millis(20) {
+        std::thread::sleep(Duration::from_micros(200));
+    }
+    true
+}
+
+fn read_bytes_counter(p: &sozu_lib::verif::Probe) -> u64 {
+    p.counter("io.tcp.read.bytes") + p.counter("io.session_tcp.read.bytes")
+}
+
+struct Ran {
+    client: Option<SideReport>,
+    backend: Option<SideReport>,
+    timed_out: bool,
+    /// the worker stopped answering commands while the session was stuck
+    wedged: bool,
+    connect_error: Option<String>,
+    wall: Duration,
+    /// backend connections of earlier sessions discarded before this one started
+    stale_backend_connections: u64,
+}
+
+const WS_REQUEST_LINE: &str = "GET /chat HTTP/1.1\r\n";
+const WS_TOKEN: &str = "X-C18-Token: 5f1d7c9a3b2e4f60";
+
+fn ws_request() -> Vec<u8> {
+    format!(
+        "{WS_REQUEST_LINE}Host: {WS_HOST}\r\nUpgrade: websocket\r\nConnection: Upgrade\r\n{WS_TOKEN}\r\nSec-WebSocket-Key: dGhlIHNhbXBsZSBub25jZQ==\r\nSec-WebSocket-Version: 13\r\n\r\n"
+    )
+    .into_bytes()
+}
+
+fn ws_response() -> Vec<u8> {
+    b"HTTP/1.1 101 Switching Protocols\r\nUpgrade: websocket\r\nConnection: Upgrade\r\nSec-WebSocket-Accept: s3pPLMBiTxaQ9kYGzzhZRbK+xOo=\r\n\r\n".to_vec()
+}
+
+fn build_sides(env: &Env, spec: &SessionSpec, session_uid: u64) -> (Side, Side) {
+    let mode = env.cell.mode;
+    let c2b_id = session_uid.wrapping_mul(2).wrapping_add(1);
+    let b2c_id = session_uid.wrapping_mul(2).wrapping_add(2);
+    let (crole, brole) = match &spec.script {
+        Script::Exchange { first: Who::Client } => (Role::First { half: false }, Role::Other { late: false }),
+        Script::Exchange { first: Who::Backend } => (Role::Other { late: false }, Role::First { half: false }),
+        Script::HalfClose { first: Who::Client, late } => (Role::First { half: true }, Role::Other { late: *late }),
+        Script::HalfClose { first: Who::Backend, late } => (Role::Other { late: *late }, Role::First { half: true }),
+        Script::Rst { who: Who::Client, after } => (Role::Rst { after: *after }, Role::Other { late: false }),
+        Script::Rst { who: Who::Backend, after } => (Role::Other { late: false }, Role::Rst { after: *after }),
+    };
+    let probe = Some(env.probe.clone());
+    let base = Some(read_bytes_counter(&env.probe));
+    let mut client = Side {
+        name: "client",
+        send_id: c2b_id,
+        send_len: spec.c2b,
+        recv_id: b2c_id,
+        recv_expect: spec.b2c,
+        prog: spec.cprog.clone(),
+        role: crole,
+        strip: StripMode::None,
+        preamble: Preamble::default(),
+        hold_until_first_byte: false,
+        wait_handshake_before_preamble: false,
+        wait_handshake_after_preamble: false,
+    };
+    let mut backend = Side {
+        name: "backend",
+        send_id: b2c_id,
+        send_len: spec.b2c,
+        recv_id: c2b_id,
+        recv_expect: spec.c2b,
+        prog: spec.bprog.clone(),
+        role: brole,
+        strip: StripMode::None,
+        preamble: Preamble::default(),
+        hold_until_first_byte: spec.backend_holds,
+        wait_handshake_before_preamble: false,
+        wait_handshake_after_preamble: false,
+    };
+    match mode {
+        Mode::Plain => {}
+        Mode::Send => backend.strip = StripMode::Pp,
+        Mode::Expect | Mode::Relay => {
+            if let Some(h) = &spec.hdr {
+                client.preamble = Preamble { bytes: h.bytes.clone(), cuts: spec.split.into_iter().collect(), joined: spec.joined, probe, base };
+            }
+            if mode == Mode::Relay {
+                backend.strip = StripMode::Pp;
+            }
+        }
+        Mode::Ws | Mode::ExpectWs => {
+            let mut bytes = Vec::new();
+            let mut truncated = false;
+            let mut cuts: Vec<usize> = spec.split.into_iter().collect();
+            if let (Mode::ExpectWs, Some(h)) = (mode, &spec.hdr) {
+                bytes.extend_from_slice(&h.bytes);
+                if spec.joined == 0 && !h.truncated {
+                    // the request travels in its own segment, once sozu has consumed the header
+                    cuts.push(h.bytes.len());
+                }
+                if h.truncated {
+                    client.send_len = 0;
+                    truncated = true;
+                }
+            }
+            if !spec.hdr.as_ref().is_some_and(|h| h.truncated) {
+                bytes.extend_from_slice(&ws_request());
+            }
+            if let Some(c) = spec.request_cut {
+                cuts.push(bytes.len() - ws_request().len() + c);
+            }
+            cuts.sort_unstable();
+            client.preamble = Preamble { bytes, cuts, joined: 0, probe: probe.clone(), base };
+            client.strip = StripMode::HttpHead;
+            client.wait_handshake_after_preamble = !truncated;
+            backend.strip = StripMode::HttpHead;
+            backend.wait_handshake_before_preamble = true;
+            // not joined: the first backend bytes leave once sozu has read the 101 (a read of their own)
+            backend.preamble = Preamble { bytes: ws_response(), cuts: vec![], joined: spec.ws_joined, probe, base: None };
+        }
+    }
+    (client, backend)
+}
+
+static SESSION_UID: AtomicU64 = AtomicU64::new(1);
+
+fn run_session(env: &Env, spec: &SessionSpec, w: &mut Worker) -> Ran {
+    let started = Instant::now();
+    // Connections sozu opened for an earlier session may still sit in the backend's accept queue.
+    // The queue is FIFO: push a marker connection of our own through it and discard everything
+    // that comes out before the marker.
+    let mut stale = 0u64;
+    match std::net::TcpStream::connect_timeout(&env.back, Duration::from_secs(2)) {
+        Ok(marker) => {
+            let me = marker.local_addr().ok();
+            let limit = Instant::now() + Duration::from_secs(5);
+            loop {
+                match env.accept_rx.recv_timeout(Duration::from_millis(50)) {
+                    Ok(s) if s.peer_addr().ok() == me => break,
+                    Ok(_) => stale += 1,
+                    Err(_) if Instant::now() > limit => break,
+                    Err(_) => {}
+                }
+            }
+        }
+        Err(_) => while env.accept_rx.try_recv().is_ok() {},
+    }
+    let uid = SESSION_UID.fetch_add(1, Ordering::SeqCst);
+    let (cside, bside) = build_sides(env, spec, uid);
+    let volume = spec.c2b.max(spec.b2c);
+    let budget = Duration::from_secs(20).max(Duration::from_micros(volume.saturating_mul(10)));
+    let sh = Shared::new(started + budget + env.idle_limit);
+    let bind = if env.cell.ipv6 { None } else { spec.src_ip.map(IpAddr::V4) };
+    let mut ran = Ran { client: None, backend: None, timed_out: false, wedged: false, connect_error: None, wall: Duration::ZERO, stale_backend_connections: stale };
+    let client = match peers::connect(env.front, bind, &spec.cprog, Duration::from_secs(3)) {
+        Ok(c) => c,
+        Err(e) => {
+            ran.connect_error = Some(format!("{e}"));
+            ran.wall = started.elapsed();
+            return ran;
+        }
+    };
+    std::thread::scope(|scope| {
+        let (shr, csr, bsr) = (&sh, &cside, &bside);
+        let ch = scope.spawn(move || engine::run_side(client, csr, shr));
+        let mut bh = None;
+        let mut no_backend = false;
+        let mut grace: Option<Instant> = None;
+        let mut last = sh.progress.load(Ordering::Relaxed);
+        let mut since = Instant::now();
+        let mut poked = false;
+        loop {
+            // sozu's connection to the backend
+            if bh.is_none() && !no_backend {
+                match env.accept_rx.recv_timeout(Duration::from_millis(2)) {
+                    Ok(s) => {
+                        if spec.bprog.rcvbuf > 0 {
+                            let _ = socket2::SockRef::from(&s).set_recv_buffer_size(spec.bprog.rcvbuf);
+                        }
+                        if spec.bprog.sndbuf > 0 {
+                            let _ = socket2::SockRef::from(&s).set_send_buffer_size(spec.bprog.sndbuf);
+                        }
+                        bh = Some(scope.spawn(move || engine::run_side(s, bsr, shr)));
+                    }
+                    Err(_) => {
+                        if ch.is_finished() {
+                            // the client side is over; sozu may still be connecting
+                            let g = *grace.get_or_insert_with(Instant::now);
+                            let released = env.probe.snapshot().nb_connections <= env.baseline_connections;
+                            if (released && g.elapsed() > Duration::from_millis(30)) || g.elapsed() > Duration::from_millis(500) {
+                                no_backend = true;
+                            }
+                        }
+                    }
+                }
+            } else {
+                std::thread::sleep(Duration::from_millis(2));
+            }
+            if ch.is_finished() && (no_backend || bh.as_ref().is_some_and(|h| h.is_finished())) {
+                break;
+            }
+            if sh.abort.load(Ordering::SeqCst) && bh.is_none() {
+                no_backend = true;
+            }
+            // watchdog on byte progress
+            let now = sh.progress.load(Ordering::Relaxed);
+            if now != last {
+                last = now;
+                since = Instant::now();
+                continue;
+            }
+            if since.elapsed() > Duration::from_secs(3) && !poked {
+                poked = true;
+                // nothing moves: is the worker's event loop still alive?
+                if !w.is_running() {
+                    sh.abort.store(true, Ordering::SeqCst);
+                } else {
+                    // two unanswered Status commands (5 s each) and an iteration counter that stands still
+                    let status = || RequestType::Status(sozu_command_lib::proto::command::Status {});
+                    let before = env.probe.snapshot().iteration;
+                    if !w.ok(status()) && !w.ok(status()) && w.is_running() && env.probe.snapshot().iteration == before {
+                        ran.wedged = true;
+                        sh.abort.store(true, Ordering::SeqCst);
+                    }
+                }
+            }
+            if since.elapsed() > env.idle_limit {
+                sh.timed_out.store(true, Ordering::SeqCst);
+                sh.abort.store(true, Ordering::SeqCst);
+            }
+        }
+        ran.client = ch.join().ok();
+        ran.backend = bh.and_then(|h| h.join().ok());
+    });
+    ran.timed_out = sh.timed_out.load(Ordering::SeqCst);
+    ran.wall = started.elapsed();
+    ran
+}
+
+// ------------------------------------------------------------------------------------------
+// oracle
+// ------------------------------------------------------------------------------------------
+
+enum Verdict {
+    Held,
+    /// (signature, what)
+    Violation(String, String),
+    Stalled(String),
+    Inconclusive(String),
+}
+
+fn ended(r: &SideReport) -> bool {
+    matches!(r.end, End::Eof | End::Reset(_))
+}
+
+fn classify_mismatch(mode: Mode, dir: &str, spec: &SessionSpec, m: &engine::Mismatch, receiver: &SideReport) -> (String, String) {
+    let hdr_class = spec.hdr.as_ref().map(|h| h.class.clone()).unwrap_or_default();
+    let hdr_sig = spec.hdr.as_ref().map(|h| h.coarse()).unwrap_or_default();
+    // (up to two leading bytes may match by coincidence)
+    let at_start = m.offset <= 2;
+    if dir == "client_to_backend" && mode.incoming_header() && at_start {
+        // what arrived right behind the header?
+        if let Some(h) = &spec.hdr {
+            let n = m.got.len().min(8);
+            let in_header = n >= 4 && h.bytes.windows(n).any(|w| w == &m.got[..n]);
+            if mode == Mode::Expect && in_header {
+                return (
+                    format!("expect/header_bytes_forwarded/{hdr_sig}"),
+                    format!("expect mode: the backend received bytes of the incoming PROXY header ({hdr_class}) instead of the payload"),
+                );
+            }
+        }
+        // a short tail (< 8 bytes) cannot be localised by the engine: look for it in the 232 bytes
+        // sozu may have read past the header
+        let small_shift = if m.shift.is_none() && m.got.len() >= 3 {
+            let win = engine::ks_vec(receiver.recv.id, m.offset, 240 + m.got.len());
+            win.windows(m.got.len()).position(|w| w == &m.got[..]).filter(|p| *p > 0).map(|p| p as i64)
+        } else {
+            None
+        };
+        if let Some(s) = m.shift.or(small_shift).filter(|s| *s > 0) {
+            let s = s + m.offset as i64;
+            return (
+                format!("{}/payload_lost_after_header/{hdr_sig}", mode.name()),
+                format!(
+                    "{} mode: the first {s} payload byte(s) following a {hdr_class} PROXY header never reached the backend (stream resumes at payload offset {s})",
+                    mode.name()
+                ),
+            );
+        }
+    }
+    if mode.is_ws() && dir == "backend_to_client" && at_start && spec.ws_joined > 0 {
+        return (
+            "ws/bytes_behind_101_not_relayed".to_owned(),
+            format!(
+                "the client's upgraded stream does not start with the bytes the backend sent in the same segment as its 101 response ({} joined; stream resumes at offset {:?})",
+                spec.ws_joined, m.shift
+            ),
+        );
+    }
+    if mode == Mode::Send && m.looks_like_pp_signature {
+        return ("send/second_header".into(), format!("send mode: a second PROXY signature appears in the backend stream at payload offset {}", m.offset));
+    }
+    let p = mode.stream_prefix();
+    match m.shift {
+        Some(s) if s > 0 => (format!("{p}/bytes_dropped/{dir}"), format!("{dir}: {s} byte(s) missing at stream offset {} ({} saw them skipped)", m.offset, receiver.name)),
+        Some(s) => (format!("{p}/bytes_repeated/{dir}"), format!("{dir}: stream jumps back by {} byte(s) at offset {}", -s, m.offset)),
+        None => (format!("{p}/bytes_corrupted/{dir}"), format!("{dir}: foreign bytes at stream offset {}", m.offset)),
+    }
+}
+
+fn judge(env: &Env, spec: &SessionSpec, ran: &Ran, rep: &mut Report) -> Verdict {
+    let mode = env.cell.mode;
+    if let Some(e) = &ran.connect_error {
+        return Verdict::Inconclusive(format!("client could not connect to the listener: {e}"));
+    }
+    let Some(c) = &ran.client else {
+        return Verdict::Inconclusive("client thread lost".into());
+    };
+    let b = ran.backend.as_ref();
+    let p = mode.stream_prefix();
+
+    if ran.wedged {
+        return Verdict::Violation(
+            format!("{}/worker_event_loop_wedged", mode.name()),
+            format!("{} mode: the session stopped moving and the worker answered neither of two Status commands (5 s each), its loop counter standing still: event loop stuck", mode.name()),
+        );
+    }
+    let verdict = spec.hdr.as_ref().map(|h| h.verdict.clone());
+    let hdr_class = spec.hdr.as_ref().map(|h| h.class.clone()).unwrap_or_default();
+    let hdr_sig = spec.hdr.as_ref().map(|h| h.coarse()).unwrap_or_default();
+    let forwarded = b.map(|b| b.recv.raw).unwrap_or(0);
+    let relay_oversize_open = mode == Mode::Relay && verdict == Some(HdrVerdict::Oversized);
+    let header_must_fail = mode.incoming_header() && matches!(verdict, Some(HdrVerdict::Malformed) | Some(HdrVerdict::Oversized)) && !relay_oversize_open;
+
+    // WebSocket: the upgrade itself must have happened
+    if mode.is_ws() && !header_must_fail {
+        let refused = |how: String, closed_without_answer: bool, rep: &mut Report| -> Verdict {
+            match (mode, &verdict) {
+                (Mode::ExpectWs, Some(HdrVerdict::Lenient)) if closed_without_answer => {
+                    rep.obs("expect_http_optional_header_rejected_exempt", 1);
+                    Verdict::Held
+                }
+                (Mode::ExpectWs, Some(HdrVerdict::Valid)) | (Mode::ExpectWs, Some(HdrVerdict::Lenient)) => Verdict::Violation(
+                    format!("expect_http/request_behind_valid_header_not_served/{hdr_sig}"),
+                    format!("HTTP listener with expect_proxy: the upgrade request following a valid {hdr_class} PROXY header was {how}"),
+                ),
+                _ => Verdict::Inconclusive(format!("upgrade {how}")),
+            }
+        };
+        match &c.recv.strip {
+            Strip::HttpDone { head } if head.starts_with(b"HTTP/1.1 101") => {
+                if let Some(Strip::HttpDone { head }) = b.map(|b| &b.recv.strip) {
+                    let text = String::from_utf8_lossy(head);
+                    if !text.starts_with(WS_REQUEST_LINE) || !text.contains(WS_TOKEN) {
+                        return Verdict::Violation(
+                            format!("{}/upgrade_request_not_intact", mode.name()),
+                            format!("the upgrade request reached the backend without its request line or its token header: {:?}", &text[..text.len().min(80)]),
+                        );
+                    }
+                }
+            }
+            Strip::HttpDone { head } if head.starts_with(b"HTTP/1.1 5") => {
+                return Verdict::Inconclusive(format!("upgrade answered {:?} (backend-side trouble)", String::from_utf8_lossy(&head[..head.len().min(24)])));
+            }
+            Strip::HttpDone { head } => return refused(format!("answered {:?}", String::from_utf8_lossy(&head[..head.len().min(40)])), false, rep),
+            _ if matches!(spec.script, Script::Rst { .. }) => return Verdict::Held,
+            _ if ended(c) => return refused(format!("answered by closing the connection ({:?}, {} raw bytes)", c.end, c.recv.raw), c.recv.raw == 0 && forwarded == 0, rep),
+            _ if ran.timed_out => return Verdict::Stalled("upgrade".into()),
+            _ => return Verdict::Inconclusive("no complete answer to the upgrade request".into()),
+        }
+    }
+
+    // 1. stream equality, always (nothing but the peer's next bytes may ever arrive)
+    if let Some(b) = b {
+        // safety net: a backend connection that carries an earlier session's stream (or, in send
+        // mode, an earlier client's address) was opened late by sozu for that session
+        let prior = env.prior.borrow();
+        if let Some(m) = b.recv.mismatch.as_ref().filter(|m| m.got.len() >= 4) {
+            if prior.iter().any(|(id, _)| engine::ks_vec(*id, m.offset, m.got.len()) == m.got) {
+                return Verdict::Inconclusive("the backend connection belonged to an earlier session of the cell (late connect)".into());
+            }
+        }
+        if let (Mode::Send, Strip::PpDone { header, .. }) = (mode, &b.recv.strip) {
+            let mine = c.local.zip(c.peer).map(|(l, p)| pp::Addr::from_pair(l, p));
+            if Some(&header.addr) != mine.as_ref() && prior.iter().any(|(_, a)| a.zip(c.peer).map(|(l, p)| pp::Addr::from_pair(l, p)).as_ref() == Some(&header.addr)) {
+                return Verdict::Inconclusive("the backend connection belonged to an earlier session of the cell (late connect)".into());
+            }
+        }
+        drop(prior);
+        if let Some(m) = &b.recv.mismatch {
+            let (sig, what) = classify_mismatch(mode, "client_to_backend", spec, m, b);
+            return Verdict::Violation(sig, what);
+        }
+    }
+    if let Some(m) = &c.recv.mismatch {
+        let (sig, what) = classify_mismatch(mode, "backend_to_client", spec, m, c);
+        return Verdict::Violation(sig, what);
+    }
+
+    // 2. malformed / oversized incoming header: nothing forwarded, session closed
+    if header_must_fail {
+        if forwarded > 0 {
+            return Verdict::Violation(
+                format!("{}/invalid_header_forwarded/{hdr_class}", mode.name()),
+                format!("{} mode: {forwarded} byte(s) reached the backend behind a {hdr_class} PROXY header, which must close the session with nothing forwarded", mode.name()),
+            );
+        }
+        if !ended(c) {
+            return if ran.timed_out { Verdict::Stalled(format!("invalid_header_not_closed/{hdr_class}")) } else { Verdict::Inconclusive("client side ended without observing the close".into()) };
+        }
+        rep.obs(&format!("{}_invalid_header_closed_nothing_forwarded", mode.name()), 1);
+        rep.obs(&format!("{}_invalid_header_class_{hdr_class}", mode.name()), 1);
+        return Verdict::Held;
+    }
+    let either = verdict == Some(HdrVerdict::Lenient) || relay_oversize_open;
+    if mode.incoming_header() && either && forwarded == 0 && ended(c) && c.recv.payload < spec.b2c.max(1) {
+        rep.obs(&format!("{}_optional_header_rejected_exempt", mode.name()), 1);
+        return Verdict::Held;
+    }
+
+    // 3. the PROXY header the backend must see (send, relay)
+    if matches!(mode, Mode::Send | Mode::Relay) {
+        if let Some(b) = b.filter(|b| b.recv.raw > 0) {
+            match &b.recv.strip {
+                Strip::PpDone { header, .. } => {
+                    if mode == Mode::Send {
+                        let want = match (c.local, c.peer) {
+                            (Some(l), Some(p)) => pp::Addr::from_pair(l, p),
+                            _ => return Verdict::Inconclusive("client socket addresses unknown".into()),
+                        };
+                        let want_fam = if matches!(want, pp::Addr::V6(..)) { 0x21 } else { 0x11 };
+                        if header.ver_cmd != 0x21 || header.fam_proto != want_fam {
+                            return Verdict::Violation(
+                                "send/wrong_command_or_family".into(),
+                                format!("send mode: header has ver/cmd {:#04x} family/transport {:#04x}, expected 0x21 / {want_fam:#04x}", header.ver_cmd, header.fam_proto),
+                            );
+                        }
+                        if header.addr != want {
+                            return Verdict::Violation(
+                                "send/wrong_addresses".into(),
+                                format!("send mode: header carries {}, the client socket is {}", header.addr.describe(), want.describe()),
+                            );
+                        }
+                        rep.obs("send_header_exact", 1);
+                    } else if let Some(inc) = spec.hdr.as_ref().and_then(|h| h.parsed.as_ref()) {
+                        let same = header.ver_cmd == inc.ver_cmd && header.fam_proto == inc.fam_proto && (inc.command() == 0 || header.addr == inc.addr);
+                        if !same {
+                            return Verdict::Violation(
+                                format!("relay/header_altered/{hdr_sig}"),
+                                format!(
+                                    "relay mode: incoming header {:#04x}/{:#04x} {} was relayed as {:#04x}/{:#04x} {}",
+                                    inc.ver_cmd, inc.fam_proto, inc.addr.describe(), header.ver_cmd, header.fam_proto, header.addr.describe()
+                                ),
+                            );
+                        }
+                        rep.obs("relay_header_exact", 1);
+                    }
+                }
+                Strip::PpBad { why, looks_like_payload } => {
+                    let sig = if *looks_like_payload { "payload_before_header" } else { "malformed_header" };
+                    return Verdict::Violation(
+                        format!("{}/{sig}", mode.name()),
+                        format!("{} mode: the backend's first bytes are not a PROXY v2 header ({why})", mode.name()),
+                    );
+                }
+                Strip::Pending(buf) if ended(b) && !matches!(spec.script, Script::Rst { .. }) && c.end != End::Aborted => {
+                    // the stream ended inside the header; only meaningful when the client had not gone away first
+                    if spec.c2b > 0 && c.send_done {
+                        return Verdict::Violation(
+                            format!("{}/truncated_header", mode.name()),
+                            format!("{} mode: the backend stream ended after {} byte(s) of PROXY header", mode.name(), buf.len()),
+                        );
+                    }
+                }
+                _ => {}
+            }
+        }
+    }
+
+    // 4. completeness and end-of-stream ordering
+    let incomplete = |dir: &str, sender: &SideReport, receiver: Option<&SideReport>, len: u64, rep: &mut Report| -> Option<Verdict> {
+        let got = receiver.map(|r| r.recv.payload).unwrap_or(0);
+        if got > len {
+            return Some(Verdict::Violation(format!("{p}/extra_bytes/{dir}"), format!("{dir}: {got} bytes received, only {len} were sent")));
+        }
+        if got == len {
+            return None;
+        }
+        // fewer bytes than sent
+        if !sender.send_done && !ran.timed_out {
+            // the sender could not even write everything: the connection was cut under it
+            if let Some(r) = receiver {
+                if !ended(r) {
+                    return Some(Verdict::Inconclusive(format!("{dir}: sender failed ({:?}) and the receiver saw no end-of-stream", sender.send_err)));
+                }
+            }
+        }
+        // "rejected" is only said when the client was provably still waiting for backend bytes when
+        // sozu closed (otherwise the close may be sozu's reaction to the client's own end-of-stream)
+        let client_waiting = match &spec.script {
+            Script::Exchange { first } => spec.b2c > 0 && c.recv.payload == 0 && (*first == Who::Client || spec.c2b > 0),
+            _ => false,
+        };
+        if mode.incoming_header() && dir == "client_to_backend" && verdict == Some(HdrVerdict::Valid) && got == 0 && client_waiting {
+            let connected = receiver.is_some_and(|r| r.recv.raw > 0);
+            if !connected && ended(c) {
+                return Some(Verdict::Violation(
+                    format!("{}/valid_header_rejected/{hdr_sig}", mode.name()),
+                    format!("{} mode: a valid {hdr_class} PROXY header was answered by closing the session, nothing reached the backend", mode.name()),
+                ));
+            }
+        }
+        if mode.is_ws() && dir == "backend_to_client" && got == 0 && spec.ws_joined > 0 && receiver.is_some_and(ended) {
+            return Some(Verdict::Violation(
+                "ws/bytes_behind_101_not_relayed".to_owned(),
+                format!("the {} byte(s) the backend sent in the same segment as its 101 response never reached the client (0 of {len} bytes at end-of-stream)", spec.ws_joined),
+            ));
+        }
+        match receiver {
+            Some(r) if ended(r) => {
+                let _ = rep;
+                Some(Verdict::Violation(
+                    format!("{p}/eos_before_all_bytes/{dir}"),
+                    format!("{dir}: the receiver observed end-of-stream ({:?}) after {got} of {len} bytes{}", r.end, if sender.send_done { " (all of them written before the sender ended its stream)" } else { " (the sender was cut while writing)" }),
+                ))
+            }
+            None if ended(c) && dir == "client_to_backend" => Some(Verdict::Violation(
+                format!("{p}/eos_before_all_bytes/{dir}"),
+                format!("{dir}: the session was closed without any backend connection carrying the {len} byte(s) sent"),
+            )),
+            _ if ran.timed_out && mode.incoming_header() && dir == "client_to_backend" && got == 0 && spec.joined > 0 => {
+                Some(Verdict::Stalled(format!("after_header/{hdr_sig}")))
+            }
+            _ if ran.timed_out => Some(Verdict::Stalled(dir.to_owned())),
+            _ => Some(Verdict::Inconclusive(format!("{dir}: incomplete without end-of-stream"))),
+        }
+    };
+
+    match &spec.script {
+        Script::Rst { .. } => {
+            rep.obs("rst_sessions_prefix_checked", 1);
+            Verdict::Held
+        }
+        Script::Exchange { first } => {
+            if let Some(v) = incomplete("client_to_backend", c, b, spec.c2b, rep) {
+                return v;
+            }
+            if b.is_some() || spec.b2c > 0 {
+                let Some(b) = b else {
+                    return Verdict::Inconclusive("no backend connection for a session with backend payload".into());
+                };
+                if let Some(v) = incomplete("backend_to_client", b, Some(c), spec.b2c, rep) {
+                    return v;
+                }
+                // the second closer must see the first closer's end-of-stream
+                let other = if *first == Who::Client { b } else { c };
+                if !ended(other) {
+                    return if ran.timed_out { Verdict::Stalled(format!("eos_from_{first:?}").to_lowercase()) } else { Verdict::Inconclusive("second closer did not wait for end-of-stream".into()) };
+                }
+            }
+            rep.obs("exchange_sessions_both_directions_exact", 1);
+            Verdict::Held
+        }
+        Script::HalfClose { first, late } => {
+            let (f, o, f_len, o_len, fdir, odir) = match first {
+                Who::Client => (Some(c), b, spec.c2b, spec.b2c, "client_to_backend", "backend_to_client"),
+                Who::Backend => (b, Some(c), spec.b2c, spec.c2b, "backend_to_client", "client_to_backend"),
+            };
+            let Some(f) = f else {
+                // backend-first script without a backend connection
+                return if spec.c2b == 0 && spec.b2c == 0 { Verdict::Held } else { Verdict::Inconclusive("no backend connection".into()) };
+            };
+            if o.is_none() && f_len == 0 {
+                return Verdict::Held;
+            }
+            if let Some(v) = incomplete(fdir, f, o, f_len, rep) {
+                return v;
+            }
+            if let Some(o) = o {
+                if !ended(o) {
+                    return if ran.timed_out { Verdict::Stalled(format!("eos_{fdir}")) } else { Verdict::Inconclusive("reader left before end-of-stream".into()) };
+                }
+            }
+            rep.obs(&format!("halfclose_{}_stream_complete_at_eos", format!("{first:?}").to_lowercase()), 1);
+            // the reverse direction: sozu ends the whole session on the first end-of-stream;
+            // neither the statement nor the documentation promises more, so this is only counted
+            let got = f.recv.payload;
+            if got > o_len {
+                return Verdict::Violation(format!("{p}/extra_bytes/{odir}"), format!("{odir}: {got} bytes received, only {o_len} were sent"));
+            }
+            let key = if *late { "after" } else { "concurrent" };
+            if o_len > 0 {
+                if got == o_len {
+                    rep.obs(&format!("halfclose_reverse_{key}_fully_delivered"), 1);
+                } else {
+                    rep.obs(&format!("halfclose_reverse_{key}_cut_exempt"), 1);
+                }
+            }
+            Verdict::Held
+        }
+    }
+}
+
+// ------------------------------------------------------------------------------------------
+// cells
+// ------------------------------------------------------------------------------------------
+
+struct CellShared {
+    /// TCP expect mode kills the worker / relay mode wedges it: do not burn more workers on it
+    expect_tcp_dead: AtomicBool,
+    relay_dead: AtomicBool,
+    relay_canary_done: AtomicBool,
+    stalled: Mutex<Vec<(CellSpec, SessionSpec)>>,
+    programs: Mutex<BTreeSet<String>>,
+    splits: Mutex<BTreeSet<(String, usize, bool)>>,
+}
+
+fn setup_worker(cell: &CellSpec) -> Result<(Worker, BackendServer, MpscReceiver<std::net::TcpStream>, SocketAddr), String> {
+    let (front, back): (SocketAddr, SocketAddr) = if cell.ipv6 {
+        let ip = lab::fresh_ip().octets();
+        let port = 20000 + ((ip[2] as u16) * 254 + ip[3] as u16) % 30000;
+        (SocketAddr::new(IpAddr::V6(Ipv6Addr::LOCALHOST), port), SocketAddr::new(IpAddr::V6(Ipv6Addr::LOCALHOST), port + 1))
+    } else {
+        let ip = lab::fresh_ip();
+        (lab::sa(ip, 8080), lab::sa(ip, 9000))
+    };
+    let (tx, rx) = channel::<std::net::TcpStream>();
+    let tx: Mutex<Sender<std::net::TcpStream>> = Mutex::new(tx);
+    let bprog = IoProgram { rcvbuf: cell.backend_rcvbuf, ..IoProgram::fast() };
+    let backend = BackendServer::start(back, bprog, move |s, _| {
+        let _ = tx.lock().unwrap_or_else(|e| e.into_inner()).send(s);
+    })
+    .map_err(|e| format!("backend listener on {back}: {e}"))?;
+    let opts = WorkerOpts { buffer_size: cell.buffer_size, knobs: cell.knobs.clone(), ..WorkerOpts::default() };
+    let mut w = Worker::start(opts);
+    let ft = cell.front_timeout;
+    let proxy_protocol = match cell.mode {
+        Mode::Send => Some(ProxyProtocolConfig::SendHeader as i32),
+        Mode::Expect => Some(ProxyProtocolConfig::ExpectHeader as i32),
+        Mode::Relay => Some(ProxyProtocolConfig::RelayHeader as i32),
+        _ => None,
+    };
+    let ok = if cell.mode.is_ws() {
+        let expect = cell.mode == Mode::ExpectWs;
+        w.add_http_listener(front, |b| {
+            b.with_expect_proxy(expect).with_front_timeout(Some(ft)).with_back_timeout(Some(ft)).with_request_timeout(Some(ft));
+        }) && w.add_cluster(Cluster { cluster_id: "c18".into(), ..Default::default() })
+            && w.add_http_frontend(Worker::http_frontend("c18", front, WS_HOST, "/"))
+            && w.add_backend("c18", "b0", back)
+    } else {
+        let expect = matches!(cell.mode, Mode::Expect | Mode::Relay);
+        w.add_tcp_listener(front, |b| {
+            b.with_expect_proxy(expect).with_front_timeout(Some(ft)).with_back_timeout(Some(ft));
+        }) && w.add_cluster(Cluster { cluster_id: "c18".into(), proxy_protocol, ..Default::default() })
+            && w.add_tcp_frontend("c18", front)
+            && w.add_backend("c18", "b0", back)
+    };
+    if !ok {
+        let _ = w.stop();
+        return Err("worker configuration refused".into());
+    }
+    Ok((w, backend, rx, front))
+}
+
+fn witness(ctx: &Ctx, cell: &CellSpec, spec: &SessionSpec, ran: &Ran, front: SocketAddr) -> Value {
+    json!({
+        "case": cell.idx, "seed": ctx.seed, "cell": cell.json(), "listener": front.to_string(),
+        "session": spec.json(),
+        "client": ran.client.as_ref().map(|r| r.json()),
+        "backend": ran.backend.as_ref().map(|r| r.json()),
+        "watchdog_expired": ran.timed_out, "wall_ms": ran.wall.as_millis() as u64,
+    })
+}
+
+fn fingerprint(cell: &CellSpec, spec: &SessionSpec) -> Vec<u8> {
+    format!(
+        "{}|{}|{}|{}|{}|{}|{}|{}|{}|{}",
+        cell.mode.name(),
+        spec.script.name(),
+        size_bucket(spec.c2b),
+        size_bucket(spec.b2c),
+        spec.hdr.as_ref().map(|h| h.class.as_str()).unwrap_or("-"),
+        spec.split.is_some(),
+        spec.joined > 0,
+        spec.cprog.describe(),
+        spec.bprog.describe(),
+        cell.buffer_size
+    )
+    .into_bytes()
+}
+
+const IO_KEYS: &[&str] = &["read.wouldblock", "write.wouldblock", "write.partial", "read.partial"];
+
+fn io_counters(p: &sozu_lib::verif::Probe) -> Vec<u64> {
+    let c = p.counters();
+    let mut out = Vec::new();
+    for kind in ["tcp", "session_tcp"] {
+        for k in IO_KEYS {
+            out.push(c.get(&format!("io.{kind}.{k}")).copied().unwrap_or(0));
+        }
+    }
+    out
+}
+
+/// returns false when the cell must be abandoned
+fn wait_released(env: &Env, w: &mut Worker, limit: Duration) -> Result<(), String> {
+    let start = Instant::now();
+    loop {
+        let n = env.probe.snapshot().nb_connections;
+        if n <= env.baseline_connections {
+            return Ok(());
+        }
+        if !w.is_running() {
+            return Err("worker thread ended".into());
+        }
+        if start.elapsed() > limit {
+            return Err(format!("nb_connections {n} (baseline {})", env.baseline_connections));
+        }
+        std::thread::sleep(Duration::from_micros(300));
+    }
+}
+
+fn run_cell(ctx: &Ctx, cell: &CellSpec, rep: &mut Report, shared: &CellShared, isolated: Option<&SessionSpec>) {
+    if cell.mode == Mode::Relay && !cell.canary {
+        // wait for the verdict of the canary cell (a wedged worker spins on a core until the process ends)
+        let start = Instant::now();
+        while !shared.relay_canary_done.load(Ordering::SeqCst) && start.elapsed() < Duration::from_secs(90) {
+            std::thread::sleep(Duration::from_millis(20));
+        }
+    }
+    if (cell.mode == Mode::Relay && shared.relay_dead.load(Ordering::SeqCst)) || (cell.mode == Mode::Expect && shared.expect_tcp_dead.load(Ordering::SeqCst)) {
+        rep.obs(&format!("cells_skipped_{}_mode_kills_the_worker", cell.mode.name()), 1);
+        return;
+    }
+    let sweep = sweep_variants();
+    let malformed = malformed_headers();
+    let (mut w, mut backend, rx, front) = match setup_worker(cell) {
+        Ok(x) => x,
+        Err(e) => {
+            if cell.ipv6 {
+                rep.obs("ipv6_cell_skipped_no_ipv6_loopback", 1);
+            } else {
+                rep.inconclusive(&format!("cell setup failed: {e}"));
+            }
+            return;
+        }
+    };
+    let probe = w.probe.clone();
+    w.wait_iterations(1, Duration::from_millis(500));
+    let env = Env {
+        cell,
+        front,
+        back: backend.addr,
+        probe: probe.clone(),
+        accept_rx: &rx,
+        baseline_connections: probe.snapshot().nb_connections,
+        idle_limit: Duration::from_secs(ctx.opt_u64("idle_limit_s", 20)),
+        prior: std::cell::RefCell::new(Vec::new()),
+    };
+    rep.obs("cells", 1);
+    rep.obs(&format!("cells_mode_{}", cell.mode.name()), 1);
+    let mut strikes = 0;
+    let mut abandoned = false;
+    let sessions: Vec<SessionSpec> = match isolated {
+        Some(s) => vec![s.clone()],
+        None => (0..cell.n_sessions).map(|k| gen_session(cell, ctx.seed, k, &sweep, &malformed)).collect(),
+    };
+    let mut sweep_done = 0u64;
+    for spec in &sessions {
+        if isolated.is_none() && ctx.started.elapsed() > ctx.budget + Duration::from_secs(10) {
+            rep.obs("sessions_not_started_budget_exhausted", 1);
+            continue;
+        }
+        let before = io_counters(&probe);
+        let accepts = accept_count(&probe);
+        let ran = run_session(&env, spec, &mut w);
+        if ran.connect_error.is_none() && w.is_running() && !ran.wedged && !wait_accepted(&probe, accepts + 1, Duration::from_secs(2)) {
+            rep.obs("sessions_never_seen_accepted_by_sozu", 1);
+        }
+        rep.obs(&format!("sessions_mode_{}", cell.mode.name()), 1);
+        if !w.is_running() {
+            // the worker died under this session: the panic is the finding, the session says nothing more
+            rep.obs("sessions_cut_by_worker_death", 1);
+            rep.case_bytes(&fingerprint(cell, spec), true);
+            if cell.mode == Mode::Expect {
+                shared.expect_tcp_dead.store(true, Ordering::SeqCst);
+            }
+            abandoned = true;
+            break;
+        }
+        if ran.wedged {
+            if cell.mode == Mode::Relay {
+                shared.relay_dead.store(true, Ordering::SeqCst);
+            }
+            rep.case_bytes(&fingerprint(cell, spec), true);
+            if let Verdict::Violation(sig, what) = judge(&env, spec, &ran, rep) {
+                rep.violation(&sig, &what, witness(ctx, cell, spec, &ran, front));
+            }
+            abandoned = true;
+            break;
+        }
+        let after = io_counters(&probe);
+        let delta: Vec<u64> = after.iter().zip(before.iter()).map(|(a, b)| a - b).collect();
+        let verdict = judge(&env, spec, &ran, rep);
+        if let Some(c) = &ran.client {
+            env.prior.borrow_mut().push((c.recv.id.wrapping_sub(1), c.local));
+        }
+        if std::env::var_os("VH_C18_TRACE").is_some() {
+            eprintln!(
+                "cell {} {} k={} c2b={} b2c={} {} | c[{}] b[{}] knobs={:?} brcv={} bs={} wall={}ms verdict={}",
+                cell.idx, cell.mode.name(), spec.k, spec.c2b, spec.b2c, spec.script.name(), spec.cprog.describe(), spec.bprog.describe(),
+                cell.knobs, cell.backend_rcvbuf, cell.buffer_size, ran.wall.as_millis(),
+                match &verdict { Verdict::Held => "held".to_owned(), Verdict::Violation(s, _) => format!("VIOLATION {s}"), Verdict::Stalled(d) => format!("stalled {d}"), Verdict::Inconclusive(w) => format!("inconclusive {w}") }
+            );
+        }
+
+        // evidence
+        let mode = cell.mode.name();
+        rep.obs(&format!("script_{}", spec.script.name()), 1);
+        rep.obs(&format!("size_bucket_c2b_{}", size_bucket(spec.c2b)), 1);
+        rep.obs(&format!("size_bucket_b2c_{}", size_bucket(spec.b2c)), 1);
+        if let Some(b) = &ran.backend {
+            rep.obs("bytes_relayed_client_to_backend", b.recv.payload);
+        }
+        if let Some(c) = &ran.client {
+            rep.obs("bytes_relayed_backend_to_client", c.recv.payload);
+            rep.obs("split_waits_timed_out", c.split_wait_timeouts);
+        }
+        rep.obs_max("session_wall_ms", ran.wall.as_millis() as u64);
+        rep.obs("late_backend_connections_of_earlier_sessions_discarded", ran.stale_backend_connections);
+        if let Some(h) = &spec.hdr {
+            rep.obs(&format!("{mode}_header_class_{}", h.class), 1);
+        }
+        for (i, kind) in ["tcp", "session_tcp"].iter().enumerate() {
+            for (j, k) in IO_KEYS.iter().enumerate() {
+                let d = delta[i * IO_KEYS.len() + j];
+                if d > 0 {
+                    rep.obs(&format!("sessions_with_sozu_{kind}_{k}"), 1);
+                }
+            }
+        }
+        // which side of sozu hit EAGAIN on write: decidable when only one direction carries data
+        let wwb = delta[1] + delta[IO_KEYS.len() + 1];
+        let wpart = delta[2] + delta[IO_KEYS.len() + 2];
+        if spec.b2c == 0 && spec.c2b > 0 && cell.mode != Mode::Ws {
+            rep.obs("sozu_write_wouldblock_backend_side", wwb);
+            rep.obs("sozu_write_partial_backend_side", wpart);
+        }
+        if spec.c2b == 0 && spec.b2c > 0 && cell.mode != Mode::Ws {
+            rep.obs("sozu_write_wouldblock_frontend_side", wwb);
+            rep.obs("sozu_write_partial_frontend_side", wpart);
+        }
+        shared.programs.lock().unwrap().insert(format!("{}|{}", spec.cprog.describe(), spec.bprog.describe()));
+        let nontrivial = spec.c2b + spec.b2c > 0 || spec.hdr.is_some();
+        rep.case_bytes(&fingerprint(cell, spec), nontrivial);
+        if spec.k < 2 && cell.idx % 7 == 0 {
+            rep.sample(json!({"cell": cell.json(), "session": spec.json(), "client": ran.client.as_ref().map(|r| r.json()), "backend": ran.backend.as_ref().map(|r| r.json())}));
+        }
+
+        match verdict {
+            Verdict::Held => {
+                rep.obs(&format!("sessions_judged_{mode}"), 1);
+                if let (CellKind::Sweep { .. }, Some(h)) = (&cell.kind, &spec.hdr) {
+                    shared.splits.lock().unwrap().insert((format!("{mode}/{}", h.class), spec.split.unwrap_or(0), spec.joined > 0));
+                    sweep_done += 1;
+                }
+            }
+            Verdict::Violation(sig, what) => {
+                rep.obs(&format!("sessions_judged_{mode}"), 1);
+                if let (CellKind::Sweep { .. }, Some(h)) = (&cell.kind, &spec.hdr) {
+                    shared.splits.lock().unwrap().insert((format!("{mode}/{}", h.class), spec.split.unwrap_or(0), spec.joined > 0));
+                    sweep_done += 1;
+                }
+                rep.violation(&sig, &what, witness(ctx, cell, spec, &ran, front));
+            }
+            Verdict::Stalled(dir) => {
+                strikes += 1;
+                if isolated.is_some() {
+                    let sig = if dir.starts_with("invalid_header_not_closed") {
+                        format!("{mode}/{dir}")
+                    } else if dir.starts_with("after_header/") {
+                        // the payload sent in the segment of the header never came out
+                        format!("{mode}/stalled_{dir}")
+                    } else {
+                        format!("{}/stalled/{dir}", cell.mode.stream_prefix())
+                    };
+                    rep.violation(
+                        &sig,
+                        &format!("no byte moved for {} s although both scripted peers were reading and writing ({dir}); reproduced alone on a fresh worker", env.idle_limit.as_secs()),
+                        witness(ctx, cell, spec, &ran, front),
+                    );
+                } else {
+                    rep.obs("watchdog_expired_rerun_queued", 1);
+                    shared.stalled.lock().unwrap().push((cell.clone(), spec.clone()));
+                }
+            }
+            Verdict::Inconclusive(why) => {
+                if isolated.is_some() {
+                    rep.obs("isolated_rerun_inconclusive", 1);
+                }
+                rep.inconclusive(&why);
+            }
+        }
+
+        // 5. universal: worker alive, session released
+        if !w.is_running() {
+            abandoned = true;
+            break;
+        }
+        match wait_released(&env, &mut w, Duration::from_secs(8)) {
+            Ok(()) => rep.obs("sessions_released", 1),
+            Err(why) => {
+                if !w.is_running() {
+                    abandoned = true;
+                    break;
+                }
+                // is the event loop still serving commands?
+                let status = || RequestType::Status(sozu_command_lib::proto::command::Status {});
+                let before = probe.snapshot().iteration;
+                let alive = w.ok(status()) || w.ok(status()) || probe.snapshot().iteration != before;
+                if !alive {
+                    if cell.mode == Mode::Relay {
+                        shared.relay_dead.store(true, Ordering::SeqCst);
+                    }
+                    shared.stalled.lock().unwrap().retain(|(c, _)| c.idx != cell.idx);
+                    rep.violation(
+                        &format!("{}/worker_event_loop_wedged", cell.mode.name()),
+                        "after this session the worker neither released it nor answered two Status commands (5 s each), its loop counter standing still: event loop stuck",
+                        witness(ctx, cell, spec, &ran, front),
+                    );
+                    abandoned = true;
+                    break;
+                }
+                rep.violation(
+                    "tcp/session_not_released",
+                    &format!("both peers closed their sockets, 8 s later the worker still counts the session: {why}"),
+                    witness(ctx, cell, spec, &ran, front),
+                );
+                abandoned = true;
+                break;
+            }
+        }
+        if strikes >= 2 {
+            rep.obs("cells_abandoned_after_two_watchdog_expiries", 1);
+            abandoned = true;
+            break;
+        }
+    }
+    if let CellKind::Sweep { from, to, .. } = &cell.kind {
+        if isolated.is_none() && sweep_done == ((to - from) * 2) as u64 {
+            rep.obs(&format!("{}_sweep_cells_complete", cell.mode.name()), 1);
+        }
+    }
+    if abandoned {
+        rep.obs("cells_abandoned", 1);
+    }
+    for (k, v) in probe.counters() {
+        if k.starts_with("io.") {
+            rep.obs(&format!("sozu.{k}"), v);
+        }
+    }
+    let was_running = w.is_running();
+    backend.stop();
+    let panics = w.stop();
+    if !was_running && panics.is_empty() {
+        rep.obs("worker_ended_without_panic_record", 1);
+    }
+    for p in panics {
+        if p.in_sozu() {
+            rep.violation(
+                &p.signature(),
+                &format!("the worker thread panicked in {} mode: {} at {}", cell.mode.name(), p.message, p.location),
+                json!({"case": cell.idx, "seed": ctx.seed, "cell": cell.json(), "panic": p.message, "location": p.location}),
+            );
+        } else {
+            rep.broken(&format!("worker thread panicked outside sozu: {} at {}", p.message, p.location));
+        }
+    }
+}
+
+fn build_cells(ctx: &Ctx) -> Vec<CellSpec> {
+    let mut cells = Vec::new();
+    let mut rng = Rng::for_case(ctx.seed, STREAM, u64::MAX);
+    let scale = ctx.opt_u64("scale", ctx.tier.pick(1, 30));
+    let max_size = ctx.opt_u64("max_size", ctx.tier.pick(8 << 20, 64 << 20));
+    let base = |mode: Mode, kind: CellKind, n: u64| CellSpec {
+        idx: 0,
+        mode,
+        kind,
+        buffer_size: 16393,
+        knobs: vec![],
+        backend_rcvbuf: 0,
+        ipv6: false,
+        n_sessions: n,
+        max_size,
+        front_timeout: 60,
+        canary: false,
+    };
+    let variants = sweep_variants();
+    let sweep_cells = |mode: Mode, list: &[usize], cells: &mut Vec<CellSpec>| {
+        for &v in list {
+            let len = variants[v].bytes.len();
+            let mut from = 0;
+            while from < len {
+                let to = (from + 60).min(len);
+                cells.push(base(mode, CellKind::Sweep { variant: v, from, to }, ((to - from) * 2) as u64));
+                from = to;
+            }
+        }
+    };
+    let all: Vec<usize> = (0..variants.len()).collect();
+    let n_mal = malformed_headers().len() as u64 * 2;
+    let malformed_cell = |mode: Mode| {
+        let mut c = base(mode, CellKind::Malformed, n_mal);
+        c.front_timeout = 2;
+        c
+    };
+    // 1. the relay canary (runs beside everything else), then the exhaustive split sweep through
+    //    the HTTP listener (the only `expect` path that survives a connection at this commit)
+    let mut canary = base(Mode::Relay, CellKind::Sweep { variant: 0, from: 0, to: 28 }, 56);
+    canary.canary = true;
+    cells.push(canary);
+    sweep_cells(Mode::ExpectWs, &all, &mut cells);
+    cells.push(malformed_cell(Mode::ExpectWs));
+    // 2. random cells
+    let per_cell = ctx.opt_u64("sessions_per_cell", 60);
+    let plan = [(Mode::Plain, 30u64), (Mode::Send, 12), (Mode::Ws, 12), (Mode::ExpectWs, 8), (Mode::Expect, 2), (Mode::Relay, 3)];
+    for round in 0..scale {
+        for (mode, count) in plan {
+            for i in 0..count {
+                let mut c = base(mode, CellKind::Random, per_cell);
+                c.buffer_size = if mode.is_ws() { *rng.pick(&[16393u64, 32768]) } else { *rng.pick(&[16393u64, 16393, 4096, 1031, 65536, 32768]) };
+                // send buffers of a few KB give EAGAIN after a few KB; receive buffers below ~16 KB make
+                // the kernel advertise zero windows (silly-window avoidance) and crawl at 50 KB/s
+                let small = *rng.pick(&[4096i64, 8192, 16384]);
+                let rcv = *rng.pick(&[16384i64, 32768]);
+                c.knobs = match rng.below(5) {
+                    0 => vec![],
+                    1 => vec![("front_sndbuf".to_owned(), small)],
+                    2 => vec![("back_sndbuf".to_owned(), small)],
+                    3 => vec![("front_sndbuf".to_owned(), small), ("back_sndbuf".to_owned(), small)],
+                    _ => vec![("front_sndbuf".to_owned(), small), ("back_sndbuf".to_owned(), small), ("front_rcvbuf".to_owned(), rcv), ("back_rcvbuf".to_owned(), rcv)],
+                };
+                c.backend_rcvbuf = *rng.pick(&[0usize, 0, 16384, 32768]);
+                if c.backend_rcvbuf > 0 || c.knobs.iter().any(|(k, _)| k.ends_with("rcvbuf")) {
+                    c.max_size = c.max_size.min(300_000);
+                }
+                c.ipv6 = mode == Mode::Send && i == 1 && round == 0;
+                cells.push(c);
+            }
+        }
+    }
+    // 3. the TCP-listener expect / relay sweeps and malformed cells (gated: see CellShared)
+    sweep_cells(Mode::Expect, &all, &mut cells);
+    cells.push(malformed_cell(Mode::Expect));
+    sweep_cells(Mode::Relay, RELAY_SWEEP, &mut cells);
+    cells.push(malformed_cell(Mode::Relay));
+    for (i, c) in cells.iter_mut().enumerate() {
+        c.idx = i as u64;
+    }
+    // debugging aids: --opt only=<mode>[,<mode>] --opt kind=random|sweep|malformed
+    if let Some(only) = ctx.opt("only") {
+        cells.retain(|c| only.split(',').any(|m| m == c.mode.name()));
+    }
+    if let Some(kind) = ctx.opt("kind") {
+        cells.retain(|c| match c.kind {
+            CellKind::Random => kind == "random",
+            CellKind::Sweep { .. } => kind == "sweep",
+            CellKind::Malformed => kind == "malformed",
+        });
+    }
+    if let Some(n) = ctx.opt("max_cells").and_then(|v| v.parse::<usize>().ok()) {
+        cells.truncate(n);
+    }
+    cells
+}
+
+const SWEEP_MODES: &[(Mode, &[usize])] = &[(Mode::ExpectWs, &[0, 1, 2, 3, 4, 5, 6, 7, 8, 9]), (Mode::Expect, &[0, 1, 2, 3, 4, 5, 6, 7, 8, 9]), (Mode::Relay, RELAY_SWEEP)];
+
+pub fn run(ctx: &Ctx) -> Report {
+    let mut rep = Report::new(
+        "exploration",
+        "cells = (proxy-protocol mode, buffer_size, socket-buffer knobs) x sessions; a session = payload sizes per direction from the boundary set {0,1,buffer_size+-2,16384+-9,65535+-1,2^n+-1,...,max}, a close script (exchange / half-close from either side with concurrent or late reverse traffic / RST at a random offset), an I/O program per peer (segment size, pauses, read chunk, SO_RCVBUF/SO_SNDBUF) and, in expect/relay mode, a PROXY v2 header shape, a split position and whether payload shares the segment; split positions of 10 header shapes are enumerated exhaustively; non-trivial = at least one payload byte or a header; distinct = distinct (mode, script, size buckets, header class, split?, joined?, I/O programs, buffer_size)",
+    );
+    rep.max_samples = 8;
+    rep.assume("sozu is built without the `splice` feature (the harness depends on sozu-lib with default features off): lib/src/splice.rs is not exercised");
+    rep.assume("after the first end-of-stream sozu ends the whole session; bytes of the opposite direction not yet delivered at that point are counted (halfclose_reverse_*_cut_exempt) but not judged, since neither the statement nor the documentation promises half-open relaying");
+    rep.assume("headers longer than 16+216 bytes are 'oversized' (limit taken from expect.rs; doc/configure.md documents none); in relay mode, which has no such limit in the code, an oversized header may be relayed intact or refused");
+    rep.assume("a TLV area too short to hold a TLV (1-2 padding bytes) may be accepted or refused");
+    rep.assume("expect mode is exercised through the HTTP listener (`expect_proxy` + WebSocket upgrade: the payload behind the header is the upgrade request, judged on its request line and a token header, then raw bytes) as well as through the TCP listener; both use lib/src/protocol/proxy_protocol/expect.rs");
+    lab::raise_fd_limit();
+    if let Err(e) = pp::self_test().and_then(|_| engine::self_test()) {
+        rep.broken(&format!("self-test of the independent reference failed: {e}"));
+        return rep;
+    }
+    let shared = CellShared {
+        expect_tcp_dead: AtomicBool::new(false),
+        relay_dead: AtomicBool::new(false),
+        relay_canary_done: AtomicBool::new(false),
+        stalled: Mutex::new(Vec::new()),
+        programs: Mutex::new(BTreeSet::new()),
+        splits: Mutex::new(BTreeSet::new()),
+    };
+    let mut run_ctx = ctx.clone();
+    let cells;
+    if let Some(path) = &ctx.replay {
+        let v: Value = serde_json::from_str(&std::fs::read_to_string(path).unwrap_or_default()).unwrap_or(Value::Null);
+        if let Some(s) = v["seed"].as_u64() {
+            run_ctx.seed = s;
+        }
+        let all = build_cells(&run_ctx);
+        let wanted: BTreeSet<u64> = v["witnesses"].as_array().map(|a| a.iter().filter_map(|w| w["case"].as_u64()).collect()).unwrap_or_default();
+        cells = all.into_iter().filter(|c| wanted.contains(&c.idx)).collect::<Vec<_>>();
+    } else {
+        cells = build_cells(ctx);
+        if ctx.opt("only").is_none() && ctx.opt("kind").is_none() && ctx.opt("max_cells").is_none() {
+            for k in [
+                "sozu_write_wouldblock_backend_side",
+                "sozu_write_wouldblock_frontend_side",
+                "sessions_judged_plain",
+                "sessions_judged_send",
+                "sessions_judged_ws",
+                "sessions_judged_expect_http",
+                "sessions_mode_expect",
+                "sessions_mode_relay",
+                "send_header_exact",
+                "split_sweep_exhaustive_expect_http",
+                "expect_http_header_class_local_unspec",
+                "expect_http_header_class_proxy_unspec_tlv",
+                "expect_http_header_class_proxy_tcp4_tlv",
+                "expect_http_header_class_proxy_tcp6",
+                "expect_http_header_class_proxy_unix",
+                "expect_http_invalid_header_closed_nothing_forwarded",
+                "bytes_relayed_client_to_backend",
+                "bytes_relayed_backend_to_client",
+            ] {
+                rep.require(k);
+            }
+        }
+    }
+    run_ctx.threads = ctx.opt_u64("cell_threads", (ctx.threads as u64 * 3 / 2).max(4)) as usize;
+    let ctxr = &run_ctx;
+    // the relay canary runs in its own thread beside the pool; the other relay cells wait for it
+    let (canaries, pool): (Vec<CellSpec>, Vec<CellSpec>) = cells.into_iter().partition(|c| c.canary);
+    if canaries.is_empty() {
+        shared.relay_canary_done.store(true, Ordering::SeqCst);
+    }
+    let mut canary_rep = rep.fork();
+    std::thread::scope(|s| {
+        let sh = &shared;
+        let cr = &mut canary_rep;
+        let h = std::thread::Builder::new().name("vh-cell-canary".into()).spawn_scoped(s, move || {
+            for c in &canaries {
+                if let Err(p) = crate::common::guard(|| run_cell(ctxr, c, cr, sh, None)) {
+                    cr.broken(&format!("harness panic in canary cell: {} at {}", p.message, p.location));
+                }
+            }
+            sh.relay_canary_done.store(true, Ordering::SeqCst);
+        });
+        par_cases_named(ctxr, &mut rep, pool.len() as u64, "cell", |i, r| run_cell(ctxr, &pool[i as usize], r, &shared, None));
+        if let Ok(h) = h {
+            let _ = h.join();
+        }
+    });
+    rep.merge(canary_rep);
+
+    // watchdog expiries: once more, alone, on a fresh worker
+    let stalled = std::mem::take(&mut *shared.stalled.lock().unwrap());
+    let max_reruns = ctx.opt_u64("max_reruns", ctx.tier.pick(4, 12)) as usize;
+    for (n, (cell, spec)) in stalled.iter().enumerate() {
+        if n >= max_reruns {
+            rep.inconclusive("watchdog expired; isolated re-run skipped (re-run budget spent)");
+            continue;
+        }
+        rep.obs("isolated_reruns", 1);
+        run_cell(ctxr, cell, &mut rep, &shared, Some(spec));
+    }
+
+    // exhaustive sub-space: every split position of every sweep header, with and without joined payload
+    let splits = shared.splits.lock().unwrap();
+    let variants = sweep_variants();
+    let mut table = serde_json::Map::new();
+    for (mode, list) in SWEEP_MODES {
+        let mut complete = true;
+        for &v in *list {
+            let h = &variants[v];
+            let key = format!("{}/{}", mode.name(), h.class);
+            let mut covered = 0;
+            for pos in 0..h.bytes.len() {
+                for joined in [false, true] {
+                    if splits.contains(&(key.clone(), pos, joined)) {
+                        covered += 1;
+                    }
+                }
+            }
+            table.insert(key, json!({"header_len": h.bytes.len(), "split_positions_x_joined_judged": covered, "of": h.bytes.len() * 2}));
+            if covered != h.bytes.len() * 2 {
+                complete = false;
+            }
+        }
+        if complete && ctx.replay.is_none() {
+            rep.obs(&format!("split_sweep_exhaustive_{}", mode.name()), 1);
+        }
+        table.insert(format!("{}/exhaustive", mode.name()), json!(complete));
+    }
+    rep.set("split_sweep", Value::Object(table));
+    rep.obs("header_variant_x_split_positions_judged", splits.len() as u64);
+    rep.obs("distinct_io_program_pairs", shared.programs.lock().unwrap().len() as u64);
     rep
 }
